@@ -213,6 +213,13 @@ func Corpus() []*Scenario {
 		Msgs:   []MsgSpec{two(1), {ID: 2, Topic: "t0", Choice: 0, Wave: 1}},
 		Script: []Fault{{Kind: Retriable, Err: 6, Only: -1}, {Kind: DropBefore, Only: -1, MetaDown: true}},
 		Holds:  []HoldSpec{{Kind: "bp.response", Nth: 1}, {Kind: "pp.newHWM", Nth: 1, Until: "bp.response", UntilNth: 2}}})
+	// two-level jump: the message is bounced a second time after its first level was flushed (0 -> 2, level 1 never
+	// expects a chaser); the leader is unavailable when the level-2 chaser comes back, so the lookup fails at the
+	// intermediate level 1 and flushRetryBuffers must still unwind to level 0 (seeded C12-8: it returned at level 1 and
+	// every later first-pass message stayed parked: Close hangs)
+	out = append(out, TwoLevelFlushFail("corpus/two-level-flush-leaderless", 1, 1, 2, 1, 6, 0, false))
+	out = append(out, TwoLevelFlushFail("corpus/two-level-flush-leaderless-back", 1, 1, 3, 2, 6, 0, true))
+	out = append(out, TwoLevelFlushFail("corpus/two-level-flush-leaderless-2", 2, 2, 3, 1, 7, 1, true))
 	// connection drop, leader move, metadata failure
 	out = append(out, &Scenario{Name: "corpus/drop-and-move", Brokers: 2, Partitions: 2, Topics: []string{"t0"}, RetryMax: 2, V2: true, FlushMsgs: 2,
 		Msgs:   []MsgSpec{two(1), {ID: 2, Topic: "t0", Choice: 1}, two(3), {ID: 4, Topic: "t0", Choice: 1}, two(5)},
@@ -266,5 +273,36 @@ func FlushFail(name string, brokers, partitions, retryMax, parked int, errCode i
 	sc.Holds = []HoldSpec{{Kind: "bp.recv", Nth: 1, Fin: true, Until: "pp.recv", UntilNth: 2 + parked}}
 	sc.WaveWaits = []int{0, 0, 1 + parked}
 	sc.MetaUpAtWave = 2
+	return sc
+}
+
+// TwoLevelFlushFail: m1 is bounced, retried through a first level (leader available), bounced again while the
+// metadata goes down: the partition worker jumps from level 0 to level 2, m1 fails on the lookup, and when the level-2
+// chaser returns the flush fails its lookup at level 1 (which expects no chaser) and again at level 0.  `later`
+// first-pass messages follow (wave 1, after m1's error; leader still unavailable: they must fail, not stay parked);
+// with back, the leader returns before a last wave whose messages must succeed.
+func TwoLevelFlushFail(name string, brokers, partitions, retryMax, later int, errCode int16, chanBuf int, back bool) *Scenario {
+	if retryMax < 2 {
+		retryMax = 2
+	}
+	sc := &Scenario{Name: name, Brokers: brokers, Partitions: partitions, Topics: []string{"t0"}, RetryMax: retryMax, V2: true, ChanBuf: chanBuf}
+	id := int64(1)
+	sc.Msgs = append(sc.Msgs, MsgSpec{ID: id, Topic: "t0", Choice: 0})
+	for i := 0; i < later; i++ {
+		id++
+		sc.Msgs = append(sc.Msgs, MsgSpec{ID: id, Topic: "t0", Choice: 0, Wave: 1})
+	}
+	if partitions > 1 {
+		id++
+		sc.Msgs = append(sc.Msgs, MsgSpec{ID: id, Topic: "t0", Choice: 1, Wave: 1})
+	}
+	sc.Script = []Fault{{Kind: Retriable, Err: errCode, Only: -1}, {Kind: Retriable, Err: errCode, Only: -1, MetaDown: true}}
+	sc.WaveWaits = []int{0, 1}
+	if back {
+		id++
+		sc.Msgs = append(sc.Msgs, MsgSpec{ID: id, Topic: "t0", Choice: 0, Wave: 2})
+		sc.WaveWaits = append(sc.WaveWaits, int(id)-1)
+		sc.MetaUpAtWave = 2
+	}
 	return sc
 }
